@@ -130,6 +130,15 @@ VP_MEMOPS(64, uint64_t)
 
 /* one-time initialisation of function-local statics (Itanium ABI guards) and at-exit registration */
 uint32_t vpx___cxa_guard_acquire(uint64_t *g) { if (*(uint8_t *)g) return 0; return 1; }
-void vpx___cxa_guard_release(uint64_t *g) { *(uint8_t *)g = 1; }
+#ifdef __CPROVER__
+void vp_globals_snapshot(void);     /* generated with the translated code */
+#endif
+/* the end of an ABI-guarded one-time initialisation: what it wrote to module-level state is accepted (C20: every OTHER write is not) */
+void vpx___cxa_guard_release(uint64_t *g) {
+  *(uint8_t *)g = 1;
+#ifdef __CPROVER__
+  vp_globals_snapshot();
+#endif
+}
 void vpx___cxa_guard_abort(uint64_t *g) { (void)g; }
 uint32_t vpx___cxa_atexit(void *f, void *a, void *d) { (void)f; (void)a; (void)d; return 0; }
